@@ -7,6 +7,8 @@ import (
 	"go/token"
 	"go/types"
 	"strings"
+
+	"golang.org/x/tools/go/packages"
 )
 
 func init() {
@@ -136,7 +138,7 @@ func runC18(c *Ctx) {
 		ast.Inspect(fd.Body, func(n ast.Node) bool {
 			if call, ok := n.(*ast.CallExpr); ok && call.Pos() > fpr.End() {
 				if se, ok := call.Fun.(*ast.SelectorExpr); ok && se.Sel.Name == "Write" && len(call.Args) == 1 {
-					if types.ExprString(se.X) == types.ExprString(fpr.Args[0]) {
+					if strings.TrimPrefix(types.ExprString(ast.Unparen(se.X)), "&") == strings.TrimPrefix(types.ExprString(ast.Unparen(fpr.Args[0])), "&") {
 						if id, ok := call.Args[0].(*ast.Ident); ok && info.ObjectOf(id) == lenObj && fc.dominates(fpr, call) {
 							bodyWrite = true
 						}
@@ -819,11 +821,19 @@ func runC18(c *Ctx) {
 			f := st.Field(i)
 			if mt, ok := f.Type().Underlying().(*types.Map); ok {
 				if _, isChan := mt.Elem().Underlying().(*types.Chan); isChan {
+					var mus []*types.Var
 					for j := 0; j < st.NumFields(); j++ {
 						g := st.Field(j)
-						if isMutexType(g.Type()) && strings.HasPrefix(g.Name(), f.Name()) {
-							pendingFld, pendingMu = f, g
+						if isMutexType(g.Type()) {
+							mus = append(mus, g)
+							if strings.HasPrefix(g.Name(), f.Name()) {
+								pendingFld, pendingMu = f, g
+							}
 						}
+					}
+					// a type of its own for the pending calls: the map and the one mutex it has
+					if pendingFld == nil && len(mus) == 1 {
+						pendingFld, pendingMu = f, mus[0]
 					}
 				}
 			}
@@ -882,6 +892,7 @@ func runC18(c *Ctx) {
 	}
 	storeHelpers := map[types.Object]int{} // helper → index of the channel parameter
 	deleteHelpers := map[types.Object]bool{}
+	lookupHelpers := map[types.Object]int{} // helper that returns pending[<param>] → index of the key parameter
 	for _, fd := range allFuncDecls(p) {
 		ast.Inspect(fd.Body, func(n ast.Node) bool {
 			switch n := n.(type) {
@@ -900,6 +911,52 @@ func runC18(c *Ctx) {
 			}
 			return true
 		})
+		// a lookup helper: its first result is, on every return, a local assigned once from pending[<param>] (or that
+		// index expression itself)
+		if fd.Body != nil && fd.Type.Results != nil && len(fd.Type.Results.List) >= 1 {
+			ki, okAll, nret := -1, true, 0
+			ast.Inspect(fd.Body, func(n ast.Node) bool {
+				if _, isLit := n.(*ast.FuncLit); isLit {
+					return false
+				}
+				ret, ok := n.(*ast.ReturnStmt)
+				if !ok {
+					return true
+				}
+				nret++
+				if len(ret.Results) == 0 {
+					okAll = false
+					return true
+				}
+				r := ast.Unparen(ret.Results[0])
+				if id, ok := r.(*ast.Ident); ok {
+					nas := 0
+					ast.Inspect(fd.Body, func(m ast.Node) bool {
+						if as, ok := m.(*ast.AssignStmt); ok && len(as.Rhs) == 1 {
+							if lid, ok := as.Lhs[0].(*ast.Ident); ok && info.ObjectOf(lid) == info.ObjectOf(id) {
+								nas++
+								r = ast.Unparen(as.Rhs[0])
+							}
+						}
+						return true
+					})
+					if nas != 1 {
+						okAll = false
+						return true
+					}
+				}
+				ix, ok := r.(*ast.IndexExpr)
+				if !ok || !isPending(ix.X) || paramIndex(fd, ix.Index) < 0 {
+					okAll = false
+					return true
+				}
+				ki = paramIndex(fd, ix.Index)
+				return true
+			})
+			if okAll && nret > 0 && ki >= 0 {
+				lookupHelpers[info.Defs[fd.Name]] = ki
+			}
+		}
 	}
 	// Call: the function that registers a reply channel in the pending map (directly or through such a helper)
 	for _, fd := range allFuncDecls(p) {
@@ -1041,6 +1098,16 @@ func runC18(c *Ctx) {
 					if ix, ok := as.Rhs[0].(*ast.IndexExpr); ok && isPending(ix.X) {
 						if lid, ok := as.Lhs[0].(*ast.Ident); ok && info.ObjectOf(lid) == chOb {
 							keyExpr = ix.Index
+						}
+					}
+					// … or by a lookup helper of the pending calls: rchan, ok := c.pending.lookup(msg.id)
+					if call, ok := ast.Unparen(as.Rhs[0]).(*ast.CallExpr); ok {
+						if fn := calleeOf(info, call); fn != nil {
+							if ki, isLookup := lookupHelpers[fn]; isLookup && ki < len(call.Args) {
+								if lid, ok := as.Lhs[0].(*ast.Ident); ok && info.ObjectOf(lid) == chOb {
+									keyExpr = call.Args[ki]
+								}
+							}
 						}
 					}
 				}
@@ -1636,6 +1703,33 @@ func frameIsNotCutShort(c *Ctx, rule string) {
 						covered = true
 					}
 				}
+				// a sticky writer: it refuses only because an EARLIER write through it failed — `if r.err != nil { return … }`
+				// where r.err is only ever assigned the error of a forwarded write. The connection is broken then, and
+				// the frame was cut short by the failure, not by the writer.
+				if !covered && len(fd.Recv.List) == 1 && len(fd.Recv.List[0].Names) == 1 {
+					robj := info.Defs[fd.Recv.List[0].Names[0]]
+					ast.Inspect(fd.Body, func(m ast.Node) bool {
+						is, ok := m.(*ast.IfStmt)
+						if !ok || !(is.Body.Pos() <= r.Pos() && r.End() <= is.Body.End()) {
+							return true
+						}
+						be, ok := ast.Unparen(is.Cond).(*ast.BinaryExpr)
+						if !ok || be.Op != token.NEQ || types.ExprString(be.Y) != "nil" {
+							return true
+						}
+						se, ok := ast.Unparen(be.X).(*ast.SelectorExpr)
+						if !ok {
+							return true
+						}
+						if rid, ok := ast.Unparen(se.X).(*ast.Ident); !ok || info.ObjectOf(rid) != robj || !isErrorType(info.TypeOf(se)) {
+							return true
+						}
+						if stickyFieldOnlyFromWrites(p, nt, info.ObjectOf(se.Sel), dest) {
+							covered = true
+						}
+						return true
+					})
+				}
 				if !covered && res == "" {
 					res = nt.Obj().Name() + ".Write returns at " + c.pos(r.Pos()) + " without having written"
 				}
@@ -1721,4 +1815,71 @@ func frameIsNotCutShort(c *Ctx, rule string) {
 		}
 	}
 	c.control(rule+":framed-writer-found", nframed >= 1)
+}
+
+// stickyFieldOnlyFromWrites: every assignment to the error field `field` in the methods of type nt stores the error
+// result of a forwarded write (directly, or through a local assigned from one).
+func stickyFieldOnlyFromWrites(p *packages.Package, nt *types.Named, field types.Object, dest func(*ast.CallExpr) ast.Expr) bool {
+	info := p.TypesInfo
+	n := 0
+	okAll := true
+	for _, fd := range allFuncDecls(p) {
+		if fd.Recv == nil || fd.Body == nil || len(fd.Recv.List) != 1 || recvTypeName(fd.Recv.List[0].Type) != nt.Obj().Name() {
+			continue
+		}
+		fromWrite := func(e ast.Expr) bool {
+			if call, ok := ast.Unparen(e).(*ast.CallExpr); ok {
+				return dest(call) != nil
+			}
+			id, ok := ast.Unparen(e).(*ast.Ident)
+			if !ok {
+				return false
+			}
+			obj := info.ObjectOf(id)
+			found, all := false, true
+			ast.Inspect(fd.Body, func(m ast.Node) bool {
+				if as, ok := m.(*ast.AssignStmt); ok {
+					for _, l := range as.Lhs {
+						if lid, ok := l.(*ast.Ident); ok && info.ObjectOf(lid) == obj {
+							found = true
+							if len(as.Rhs) != 1 {
+								all = false
+							} else if call, ok := ast.Unparen(as.Rhs[0]).(*ast.CallExpr); !ok || dest(call) == nil {
+								all = false
+							}
+						}
+					}
+				}
+				return true
+			})
+			return found && all
+		}
+		ast.Inspect(fd.Body, func(m ast.Node) bool {
+			as, ok := m.(*ast.AssignStmt)
+			if !ok {
+				return true
+			}
+			for i, l := range as.Lhs {
+				se, ok := ast.Unparen(l).(*ast.SelectorExpr)
+				if !ok || info.ObjectOf(se.Sel) != field {
+					continue
+				}
+				n++
+				switch {
+				case len(as.Rhs) == len(as.Lhs):
+					if !fromWrite(as.Rhs[i]) {
+						okAll = false
+					}
+				case len(as.Rhs) == 1:
+					if call, ok := ast.Unparen(as.Rhs[0]).(*ast.CallExpr); !ok || dest(call) == nil {
+						okAll = false
+					}
+				default:
+					okAll = false
+				}
+			}
+			return true
+		})
+	}
+	return n > 0 && okAll
 }
